@@ -123,4 +123,48 @@ theorem stream_roundtrip {c : Codec} {mode : Nat} {name : List Nat} (S : StreamS
   rw [outs_append, outs_data, pieces_flatten, (outs_eq_nil S.tl).mpr S.tlOut]
   simp
 
+/-- The hazard the hypothesis `hfirst` of `stream_roundtrip` excludes: if the very
+first window ends exactly after the `begin` line, `uudecode_filter_read` has
+consumed that line, produced nothing, and returns 0 — which its caller takes
+for the end of the data.  (Not reachable through the reader: the bidder has
+buffered more than the `begin` line before the filter is first called.) -/
+theorem header_only_window {c : Codec} {mode : Nat} {name : List Nat} (S : StreamSpec c mode name)
+    (x : List Nat) (hb : Bytes x) (first : Nat) (orc : List Nat)
+    (hfirst : first + 1 = (header c mode name).length) :
+    decode first orc (encStream c mode name x) = .eof [] := by
+  have hps := pieces_mem c.lbytes c.lpos x
+  have hitems : encStream c mode name x =
+      text (S.hdr :: ((pieces c.lbytes c.lpos x).map S.mkData ++ S.tl)) := by
+    rw [text_cons, text_append, text_data, S.tlText, S.hdrLine, encStream, encAll_pieces]
+    simp
+  rw [hitems]
+  have hok : ∀ it ∈ S.hdr :: ((pieces c.lbytes c.lpos x).map S.mkData ++ S.tl), ItemOk it := by
+    intro it hit
+    simp only [List.mem_cons, List.mem_append, List.mem_map] at hit
+    rcases hit with rfl | ⟨p, hp, rfl⟩ | hit
+    · exact S.hdrOk
+    · obtain ⟨a1, a2, a3⟩ := hps p hp
+      exact S.dataOk p (fun b hbm => hb b (a3 b hbm)) a1 a2
+    · exact S.tlOk it hit
+  have hlen : S.hdr.len = first + 1 := by
+    have := congrArg List.length S.hdrLine; simp at this; omega
+  unfold decode
+  have hpre : Pre ({} : RState) (text (S.hdr :: ((pieces c.lbytes c.lpos x).map S.mkData ++ S.tl)))
+      (S.hdr :: ((pieces c.lbytes c.lpos x).map S.mkData ++ S.tl)) :=
+    ⟨⟨S.hdrPh.1, by rw [S.hdrPh.2.1]; exact chain_data S _⟩, hok, by simp, by simp [CarryOk, Item.len], by simp⟩
+  rw [decodeLoop_spec _ _ _ _ hpre]
+  have hwl : (window (first :: orc) (text (S.hdr :: ((pieces c.lbytes c.lpos x).map S.mkData ++ S.tl)))).length
+      = first + 1 := by
+    simp only [window, List.length_take, text_cons, List.length_append, Item.line_length]; omega
+  simp only [hwl, show ({} : RState).carry.length = 0 from rfl, Nat.zero_add]
+  rw [specLoop]
+  have h1 : ¬ (first + 1 = 0) := by omega
+  have h2 : ¬ (first + 1 < S.hdr.len) := by omega
+  have h3 : ¬ (needsRoom ({} : RState).phase = true ∧ 0 + S.hdr.len * 2 > LA.Gen.UuTables.outBuffSize) := by
+    intro h; simp [needsRoom] at h
+  simp only [h1, h2, h3, if_false, S.hdrPh.2.2, loopR_cons_nil, hlen, Nat.sub_self]
+  cases (pieces c.lbytes c.lpos x).map S.mkData ++ S.tl with
+  | nil => simp [specLoop, cont, needsRoom]
+  | cons it r => simp [specLoop, cont, needsRoom]
+
 end LA.UuRead
